@@ -20,6 +20,7 @@ Oracle : metamorphic -- same set of paths relative to --outdir and byte-identica
          signature = target | file kind | construct class | axis.
 Universe flavours (shares of every 10): 3 "lookup" (>= 2 roots, last root generated with --lookup-dir), 3 "siblings" (nested
 root with >= 3 sibling namespaces, added by construction), 2 "nested", 2 "any"; every universe is first parsed by pydsdl.
+One fixed corpus universe (dependency chain across sibling namespaces, found by the thorough tier) runs in every campaign.
 Per universe: 4 targets x n perturbed pairs + 1 control pair (identical environments).  After the campaign one cheap targeted
 reduction per new signature (single-axis pair, canonical environments, one-type universe, default options).
 All tool runs are subprocesses on a thread pool; the "in-process" runs are two tool.run_inproc() calls inside one worker
@@ -688,8 +689,10 @@ def classify_line(target: str, la: typing.Optional[str], lb: typing.Optional[str
     return "line:" + anchor(na), False
 
 
-def moved_shape(line: str, names: typing.Set[str]) -> typing.Tuple[str, bool]:
+def moved_shape(line: str, names: typing.Set[str], target: str = "") -> typing.Tuple[str, bool]:
     st = line.strip()
+    if target == "html":
+        return "reordered-lines:html-markup", True
     if st.startswith("#include"):
         return "reordered-lines:#include-directives", True
     if re.match(r"^(import|from)\s", st):
@@ -733,7 +736,7 @@ def diff_text(target: str, a: str, b: str, names: typing.Set[str]) -> typing.Lis
     # the same line left one place and appeared at another (bare punctuation such as "{" / "}" does not count)
     moved = {l for l in (removed & added) if len(re.findall(r"[A-Za-z0-9]", l)) >= 3}
     for l in sorted(moved, key=la.index):
-        add(moved_shape(l, names), f"{l!r} is at line {la.index(l) + 1} in A and at line {lb.index(l) + 1} in B")
+        add(moved_shape(l, names, target), f"{l!r} is at line {la.index(l) + 1} in A and at line {lb.index(l) + 1} in B")
     for tag, i1, i2, j1, j2 in ops:
         blk_a = [(i, la[i]) for i in range(i1, i2) if la[i] not in moved]
         blk_b = [(j, lb[j]) for j in range(j1, j2) if lb[j] not in moved]
@@ -896,6 +899,46 @@ MINI_U = {
 }
 
 
+def _t(ns, name, union, attrs, extra=0):
+    return {"ns": ns, "name": name, "major": 1, "minor": 0, "port_id": None, "kind": "union" if union else "struct", "deprecated": False,
+            "doc": [], "body": {"union": union, "sealed": False, "extent_extra": extra, "attrs": attrs}}
+
+
+def _f(t, n):
+    return {"k": "field", "type": t, "name": n, "doc": None}
+
+
+# Fixed corpus (runs in every campaign next to the generated universes): a dependency chain ACROSS sibling namespaces,
+# r.q.T -> r.p.B -> r.C.  Found by the thorough tier (1 of ~1100 hash-seed pairs) and reduced by delta debugging: whether
+# r.p is generated before r.q follows the hash order of a set, and that order is visible in T's output.
+CORPUS_U = {
+    "roots": [
+        {
+            "name": "r",
+            "types": [
+                _t(["r"], "C", False, [], extra=64),
+                _t(["r", "p"], "B", True, [_f({"t": "varr", "elem": {"t": "float", "bits": 32, "cast": "saturated"}, "cap": 9, "incl": True}, "v"),
+                                           _f({"t": "ref", "full": "r.C", "major": 1, "minor": 0}, "c")]),
+                _t(["r", "q"], "T", True, [_f({"t": "ref", "full": "r.p.B", "major": 1, "minor": 0}, "b"),
+                                           _f({"t": "varr", "elem": {"t": "utf8"}, "cap": 256, "incl": True}, "s")]),
+            ],
+        }
+    ]
+}
+
+
+def corpus_case() -> dict:
+    a0 = {"t": 1700000000.0, "hs": 0, "inloc": 0, "outloc": 0, "cwd": "neutral", "spell": {"root": "abs", "out": "abs", "lookup": "abs"},
+          "proc": "fresh", "warm": "c"}
+    pairs = []
+    for hs in (1, 12345):  # hash seeds 0 / 1 order the sibling namespaces {p, q} differently (CPython 3.12 str hash)
+        pairs.append([copy.deepcopy(a0), dict(copy.deepcopy(a0), hs=hs)])
+    pairs.append([copy.deepcopy(a0), dict(copy.deepcopy(a0), hs=1, t=a0["t"] + 86401.0, inloc=1, cwd="in")])
+    return {"u": CORPUS_U, "root": 0, "flavour": "corpus",
+            "targets": {t: {"opts": {}, "pairs": copy.deepcopy(pairs)} for t in TARGETS},
+            "control": {"target": "py", "env": copy.deepcopy(a0)}}
+
+
 def minimise(sig: str, rep: dict, scratch_root: pathlib.Path) -> typing.Optional[typing.Tuple[dict, str]]:
     """Cheap targeted reduction: single-axis pair, canonical one-type universe, default options -- first candidate that
     still yields exactly this signature wins. Returns (case, what) or None (keep the original)."""
@@ -964,6 +1007,7 @@ def run(ctx: core.Ctx):
     cases: typing.List[dict] = []
     for k, (flavour, share) in enumerate(FLAVOURS):
         cases += draw_cases(ctx, flavour, n_univ * share // 10, n_pairs, seed_offset=7 + k)
+    cases.append(corpus_case())
     from .. import dsdlgen
 
     with tempfile.TemporaryDirectory(prefix="vf-c07-fe-") as td:  # generator soundness: the real front end accepts every universe
@@ -1077,6 +1121,7 @@ def run(ctx: core.Ctx):
     ctx.require("universe.kind.union", 10 if q else 200)
     ctx.require("opt.<defaults>", 4 if q else 80)
     ctx.require("pair.control", n_univ)
+    ctx.require("flavour.corpus", 12)
 
 
 def replay(ctx: core.Ctx, case):
